@@ -298,6 +298,11 @@ func runProbe(in, out string) {
 		if err != nil {
 			fatal("world (cluster %q): %v", cl, err)
 		}
+		for _, o := range x.WriterObs {
+			if !o.Matches {
+				res.Errors = append(res.Errors, fmt.Sprintf("the real writer stored day %d for a %s row at %d; the date rule %q used for planting says otherwise", o.Stored, o.Table, o.TsNs, o.Rule))
+			}
+		}
 		for _, j := range byCluster[cl] {
 			ep, ok := epByName[j.Endpoint]
 			if !ok {
